@@ -29,7 +29,16 @@ class MapV:
 
 
 def key_eq(ex, a, b):
-    """string equality of two keys; may fork on symbolic characters"""
+    """equality of two keys (strings: may fork on symbolic characters; other keys: structural)"""
+    da, db = a, b
+    while isinstance(da, Ref):
+        da = da.get()
+    while isinstance(db, Ref):
+        db = db.get()
+    if not isinstance(da, (StrSlice, str)) or not isinstance(db, (StrSlice, str)):
+        from .models import struct_eq
+        r = struct_eq(ex, da, db)
+        return ex.branch_bool(r) if isinstance(r, SB) else bool(r)
     x, y = strmodel.as_slice(a), strmodel.as_slice(b)
     cx, cy = x.chars(), y.chars()
     if len(cx) != len(cy):
@@ -72,7 +81,7 @@ def install_map_models(models):
         m.entries.append([k, v])
         return opt(None)
 
-    @R(r"^hashbrown::HashMap::<.*>::get::<str>$")
+    @R(r"^hashbrown::HashMap::<.*>::get(::<.*>)?$")
     def _get(ex, c, a):
         m = deref(a[0]); k = a[1]
         for e in m.entries:
@@ -80,7 +89,7 @@ def install_map_models(models):
                 return opt(Ref(e, 1))
         return opt(None)
 
-    @R(r"^hashbrown::HashMap::<.*>::contains_key::<str>$")
+    @R(r"^hashbrown::HashMap::<.*>::contains_key(::<.*>)?$")
     def _contains(ex, c, a):
         m = deref(a[0]); k = a[1]
         for e in m.entries:
